@@ -7,6 +7,9 @@ import (
 	"fmt"
 	"math/big"
 	"math/rand"
+	"strconv"
+	"strings"
+	"time"
 )
 
 type evaluator struct {
@@ -324,4 +327,306 @@ func selfCheckInt(ob *Oblig, _ *intTr, n int, seed int64) error {
 		}
 	}
 	return nil
+}
+
+// ---------- structured special-value search ----------
+//
+// Random per-variable candidates almost never hit the inputs on which arithmetic code goes wrong (exact
+// multiples of the group order, a limb equal to the complement of a constant the code adds, a run of zero
+// limbs...). structuredSearch treats every input vector (variables named x[0], x[1], ...) as the digits of ONE
+// integer and draws that integer from (a) a dictionary of the curve's boundary values and small multiples of
+// them and (b) concatenations of word-sized chunks taken from a dictionary harvested from the constants of
+// the obligation itself (c, ^c, c+-1, -c). As every other search here it can only produce a refutation
+// candidate; the native replay decides.
+
+var (
+	bigL, _ = new(big.Int).SetString("7237005577332262213973186563042994240857116359379907606001950938285454250989", 10)
+	bigP    = new(big.Int).Sub(pow2(255), big.NewInt(19))
+)
+
+func specialIntegers() []*big.Int {
+	var s []*big.Int
+	add := func(v *big.Int) {
+		if v.Sign() >= 0 {
+			s = append(s, v)
+		}
+	}
+	for _, base := range []*big.Int{bigL, bigP} {
+		for _, k := range []int64{1, 2, 3, 4, 7, 8, 9, 15, 16, 17} {
+			m := new(big.Int).Mul(base, big.NewInt(k))
+			for d := int64(-2); d <= 2; d++ {
+				add(new(big.Int).Add(m, big.NewInt(d)))
+			}
+		}
+		// large multiples for double-width inputs
+		for _, sh := range []uint{200, 252, 255, 256, 259, 260, 261} {
+			m := new(big.Int).Lsh(base, sh)
+			add(m)
+			add(new(big.Int).Sub(m, base))
+			add(new(big.Int).Add(m, big1))
+			add(new(big.Int).Sub(m, big1))
+		}
+	}
+	for _, k := range []uint{0, 1, 8, 63, 64, 127, 128, 191, 192, 251, 252, 253, 254, 255, 256, 260, 261, 511, 512} {
+		add(pow2(int(k)))
+		add(new(big.Int).Sub(pow2(int(k)), big1))
+		add(new(big.Int).Add(pow2(int(k)), big1))
+		add(new(big.Int).Add(pow2(int(k)), big.NewInt(12345)))
+	}
+	add(new(big.Int).Sub(pow2(255), big.NewInt(20)))
+	add(new(big.Int).Sub(pow2(255), big.NewInt(18)))
+	return s
+}
+
+type inputGroup struct {
+	name string
+	vars []*Term // by index
+}
+
+func groupInputs(vars []*Term) (groups []*inputGroup, singles []*Term) {
+	byName := map[string]map[int]*Term{}
+	var order []string
+	for _, v := range vars {
+		if v.sort.K != KBV {
+			singles = append(singles, v)
+			continue
+		}
+		i := strings.LastIndex(v.name, "[")
+		if i < 0 || !strings.HasSuffix(v.name, "]") {
+			singles = append(singles, v)
+			continue
+		}
+		idx, err := strconv.Atoi(v.name[i+1 : len(v.name)-1])
+		if err != nil {
+			singles = append(singles, v)
+			continue
+		}
+		n := v.name[:i]
+		if byName[n] == nil {
+			byName[n] = map[int]*Term{}
+			order = append(order, n)
+		}
+		byName[n][idx] = v
+	}
+	for _, n := range order {
+		m := byName[n]
+		max := -1
+		for i := range m {
+			if i > max {
+				max = i
+			}
+		}
+		g := &inputGroup{name: n, vars: make([]*Term, max+1)}
+		for i, v := range m {
+			g.vars[i] = v
+		}
+		groups = append(groups, g)
+	}
+	return
+}
+
+// harvestConsts collects bit-vector constants of the obligation as a dictionary.
+func harvestConsts(roots ...*Term) []*big.Int {
+	seen := map[string]bool{}
+	var out []*big.Int
+	add := func(v *big.Int) {
+		k := v.String()
+		if !seen[k] && len(out) < 400 {
+			seen[k] = true
+			out = append(out, v)
+		}
+	}
+	for _, r := range roots {
+		for _, t := range topo(r) {
+			if t.op != OConst || t.sort.K != KBV || t.sort.W < 8 {
+				continue
+			}
+			w := t.sort.W
+			c := t.val
+			add(c)
+			add(new(big.Int).Xor(c, maskW(w)))
+			add(normW(new(big.Int).Add(c, big1), w))
+			add(normW(new(big.Int).Sub(c, big1), w))
+			add(normW(new(big.Int).Neg(c), w))
+		}
+	}
+	return out
+}
+
+func structuredSearch(ob *Oblig, budget int, maxTime time.Duration, seed int64) map[string]*big.Int {
+	_, m := structuredSearchMulti([]*Oblig{ob}, budget, maxTime, seed)
+	return m
+}
+
+// structuredSearchMulti: one candidate stream evaluated against several obligations of the same run (the
+// term DAG and the evaluator memo are shared); returns the first obligation violated and the input.
+func structuredSearchMulti(obs []*Oblig, budget int, maxTime time.Duration, seed int64) (*Oblig, map[string]*big.Int) {
+	if len(obs) == 0 {
+		return nil, nil
+	}
+	tr := newIntTranslator()
+	var allRoots []*Term
+	hypsOf := make([][]*Term, len(obs))
+	for i, ob := range obs {
+		hypsOf[i] = flattenAnd(ob.Hyp)
+		tr.scan(hypsOf[i])
+		allRoots = append(allRoots, ob.Hyp, ob.Goal)
+	}
+	ob := obs[0]
+	vars := termVars(allRoots...)
+	groups, singles := groupInputs(vars)
+	if len(groups) == 0 {
+		return nil, nil
+	}
+	rng := rand.New(rand.NewSource(seed ^ 0x57a7 ^ ob.Goal.id))
+	specials := specialIntegers()
+	dict := harvestConsts(allRoots...)
+	dict = append(dict, big.NewInt(0), big.NewInt(1))
+	deadline := time.Now().Add(maxTime)
+	// radix candidates of a group: the bit length of the assumed bound, the variable width, and the limb
+	// radices of this library
+	radices := func(g *inputGroup) []int {
+		w := 0
+		var rs []int
+		for _, v := range g.vars {
+			if v == nil {
+				continue
+			}
+			w = v.sort.W
+			if b := tr.vbound[v]; b != nil {
+				bl := b.BitLen()
+				if bl > 0 && bl <= w {
+					rs = append(rs, bl)
+				}
+			}
+			break
+		}
+		rs = append(rs, w)
+		for _, r := range []int{52, 51, 29, 26, -1} { // -1: alternating 26/25 (32-bit field limbs)
+			if r <= w {
+				rs = append(rs, r)
+			}
+		}
+		return rs
+	}
+	split := func(v *big.Int, g *inputGroup, radix int, stride2 bool, env map[*Term]*big.Int) {
+		rest := new(big.Int).Set(v)
+		for i, x := range g.vars {
+			if stride2 {
+				// (low word, high word) pairs per digit: the digit goes to the low word
+				if i%2 == 1 {
+					if x != nil {
+						env[x] = big.NewInt(0)
+					}
+					continue
+				}
+			}
+			r := radix
+			if radix == -1 {
+				r = 26 - i%2
+			}
+			d := new(big.Int).And(rest, maskW(r))
+			rest.Rsh(rest, uint(r))
+			if i == len(g.vars)-1 && rest.Sign() > 0 && !stride2 {
+				// top digit takes what is left when it fits the variable
+				d.Or(d, new(big.Int).Lsh(rest, uint(r)))
+			}
+			if x == nil {
+				continue
+			}
+			d.And(d, maskW(x.sort.W))
+			env[x] = d
+		}
+	}
+	chunked := func(total int) *big.Int {
+		cw := []int{64, 64, 64, 52, 51, 32, 29}[rng.Intn(7)]
+		v := new(big.Int)
+		for off := 0; off < total; off += cw {
+			var c *big.Int
+			switch rng.Intn(6) {
+			case 0:
+				c = big.NewInt(0)
+			case 1:
+				c = maskW(cw)
+			case 2:
+				c = new(big.Int).Rand(rng, pow2(cw))
+			default:
+				c = new(big.Int).And(dict[rng.Intn(len(dict))], maskW(cw))
+			}
+			v.Or(v, new(big.Int).Lsh(c, uint(off)))
+		}
+		return v
+	}
+	for it := 0; it < budget; it++ {
+		if it%16 == 0 && time.Now().After(deadline) {
+			break
+		}
+		env := map[*Term]*big.Int{}
+		for _, v := range singles {
+			env[v] = candidateValue(rng, v, tr.vbound[v])
+		}
+		for _, g := range groups {
+			rs := radices(g)
+			radix := rs[rng.Intn(len(rs))]
+			stride2 := len(g.vars) >= 4 && len(g.vars)%2 == 0 && rng.Intn(4) == 0
+			bits := 0
+			for i := range g.vars {
+				if stride2 && i%2 == 1 {
+					continue
+				}
+				if radix == -1 {
+					bits += 26 - i%2
+				} else {
+					bits += radix
+				}
+			}
+			var v *big.Int
+			switch rng.Intn(5) {
+			case 0, 1:
+				v = specials[rng.Intn(len(specials))]
+			case 2, 3:
+				v = chunked(bits)
+			default:
+				// all variables random (keeps the other group's special value company)
+				for _, x := range g.vars {
+					if x != nil {
+						env[x] = candidateValue(rng, x, tr.vbound[x])
+					}
+				}
+				continue
+			}
+			split(v, g, radix, stride2, env)
+		}
+		ev := newEvaluator(env)
+		for oi, o := range obs {
+			ok := true
+			bad := false
+			for _, h := range hypsOf[oi] {
+				r, err := ev.eval(h)
+				if err != nil {
+					bad = true
+					break
+				}
+				if r.Sign() == 0 {
+					ok = false
+					break
+				}
+			}
+			if bad || !ok {
+				continue
+			}
+			gv, err := ev.eval(o.Goal)
+			if err != nil {
+				continue
+			}
+			if gv.Sign() == 0 {
+				m := map[string]*big.Int{}
+				for v, x := range env {
+					m[v.name] = x
+				}
+				return o, m
+			}
+		}
+	}
+	return nil, nil
 }
